@@ -14,6 +14,28 @@ pub enum LuaValue {
     Unknown,
 }
 
+/// Formats a number like Lua does when it converts it to a string, but only when the result is
+/// known to be the same for every Lua version (`%.14g`) and for Luau (shortest representation):
+/// finite values written without an exponent and with at most 14 significant digits.
+fn number_to_lua_string(value: f64) -> Option<String> {
+    if !value.is_finite() {
+        return None;
+    }
+    let magnitude = value.abs();
+    if magnitude != 0.0 && !(1e-4..1e14).contains(&magnitude) {
+        return None;
+    }
+    let formatted = value.to_string();
+    let significant_digits = formatted
+        .trim_start_matches('-')
+        .trim_start_matches(['0', '.'])
+        .chars()
+        .filter(char::is_ascii_digit)
+        .count();
+
+    (significant_digits <= 14).then_some(formatted)
+}
+
 impl LuaValue {
     /// As defined in Lua, all values are considered true, except for false and nil. An option is
     /// returned as the LuaValue may be unknown, so it would return none.
@@ -112,7 +134,7 @@ impl LuaValue {
     /// possible and return the same value otherwise.
     pub fn string_coercion(self) -> Self {
         match &self {
-            Self::Number(value) => Some(Self::from(value.to_string())),
+            Self::Number(value) => number_to_lua_string(*value).map(Self::from),
             _ => None,
         }
         .unwrap_or(self)
